@@ -69,6 +69,9 @@ def live_arm(t: T) -> T:
 
 
 def canon(ts: List[T]) -> List[str]:
+    # a factor that is the literal 1 (a defaulted `size=1`) does not change the product
+    ts = [x for x in ts if not (strip_wrappers(x).op == "const" and strip_wrappers(x).args[0] in (1, 1.0)
+                                and not isinstance(strip_wrappers(x).args[0], bool))]
     return sorted(show(strip_wrappers(x), maxdepth=6) for x in ts)
 
 
